@@ -165,6 +165,10 @@ def catalogue(rng=None, widths=(1, 2, 3), groups=('arith', 'logic', 'fxp'), big=
             add('logic', 'BitsMSBF', [w], [1] * w, lambda hw, i, o: P.BitsMSBF(hw, 'dut', i[0], list(o)))
             add('logic', 'Repeat', [1], [w], lambda hw, i, o: P.Repeat(hw, 'dut', i[0], o[0]))
             add('logic', 'BufEnable', [w, 1], [w], lambda hw, i, o: P.BufEnable(hw, 'dut', i[0], i[1], o[0]))
+            # configurations the constructors are expected to refuse (output wider than the data): judged like any other
+            # if a constructor accepts them
+            add('logic', 'BufEnable', [w, 1], [w + 2], lambda hw, i, o: P.BufEnable(hw, 'dut', i[0], i[1], o[0]), tag=' wide-out')
+            add('logic', 'Demux', [w, 1], [w, w + 3], lambda hw, i, o: P.Demux(hw, 'dut', i[0], i[1], list(o)), tag=' mixed-outs')
             for ws in (1, 2):
                 add('logic', 'Mux2', [ws, w, w], [w], lambda hw, i, o: P.Mux2(hw, 'dut', i[0], i[1], i[2], o[0]), tag=' selw=%d' % ws)
             for sb in (1, 2, 3):
